@@ -67,8 +67,8 @@ def decode(sel, cur):
             doc = [None, T2][rd(sel, cur, 2)]
             doc_default, code_default = "", False
         params.append((f"p{i}", hint, doc, doc_default, code_default))
-    ret_hint = [None, T1, T2][rd(sel, cur, 3)]
-    nres = rd(sel, cur, MAXR + 1)
+    ret_hint = [None, T1, T2, (T1, T2), (T2, T1)][rd(sel, cur, 5)]
+    nres = rd(sel, cur, (2 if isinstance(ret_hint, tuple) else MAXR) + 1)
     res_docs = [[None, T1, T2][rd(sel, cur, 3)] for _ in range(nres)]
     pref = [TypeSourcePreference.CODE, TypeSourcePreference.DOCSTRING][rd(sel, cur, 2)]
     return params, ret_hint, res_docs, pref
@@ -78,7 +78,8 @@ def run(params, ret_hint, res_docs, pref, warn):
     shim.install()
     args = [shim.argument(n, shim.ArgKind.ARG_OPT if cd else shim.ArgKind.ARG_POS, annotation=_mypy(h),
                           initializer=shim.int_expr(1) if cd else None) for n, h, d, dd, cd in params]
-    node = shim.func_def("f", "pkg.m.f", args, ret=_mypy(ret_hint), annotated=True,
+    ret = shim.tuple_type([_mypy(t) for t in ret_hint]) if isinstance(ret_hint, tuple) else _mypy(ret_hint)
+    node = shim.func_def("f", "pkg.m.f", args, ret=ret, annotated=True,
                          body=[shim.expr_stmt(shim.mk(shim.N.EllipsisExpr))])
     parser = StubParser({n: ParameterDocstring(type=d, default_value=dd, description="") for n, h, d, dd, cd in params},
                         [ResultDocstring(type=t, description="", name="") for t in res_docs])
@@ -132,7 +133,7 @@ def reconcile(sel: List[int]) -> bool:
             if not cd and hint is not None and p.is_optional:
                 labels.append("required-parameter-became-optional:" + ("docstring-preference" if pref == TypeSourcePreference.DOCSTRING else "code-preference"))
         # (c) result types per the table
-        code_results = [ret_hint] if ret_hint is not None else []
+        code_results = list(ret_hint) if isinstance(ret_hint, tuple) else ([ret_hint] if ret_hint is not None else [])
         for i in range(max(len(code_results), len(res_docs))):
             c = code_results[i] if i < len(code_results) else None
             d = res_docs[i] if i < len(res_docs) else None
